@@ -645,8 +645,15 @@ DnsMessage::decodeNameWithLoopDetection(const std::uint8_t *data, std::size_t of
     // The root octet that terminates the name counts towards the wire limit as well
     if (totalLength + 1 > constants::DNS_MAX_NAME_WIRE_SIZE)
     {
-      throw DnsParseException("Domain name too long: " + std::to_string(totalLength + 1) +
-                              " (max " + std::to_string(constants::DNS_MAX_NAME_WIRE_SIZE) + ")");
+      std::string message = "Domain name too long: " + std::to_string(totalLength + 1) + " (max " +
+                            std::to_string(constants::DNS_MAX_NAME_WIRE_SIZE) + ")";
+      // A pointer loop whose cycle is longer than half the limit gets here before it meets the same
+      // pointer twice, so a name that outgrows the limit through pointers is a pointer error
+      if (jumped)
+      {
+        throw DnsCompressionException(message);
+      }
+      throw DnsParseException(message);
     }
   }
 
